@@ -28,7 +28,11 @@ CONVERTERS = [
     [mrec("obo", "http://p/obo/"), mrec("GO", "http://amigo/GO:", [], ["http://p/obo/GO_", "http://p/obo/x_"]), mrec("ab", "http://p/obo/ab", [], ["http://p/obo/1"])],
     # the https twin of the canonical URI prefix is a synonym (and the other way round)
     [mrec("tw", "http://tw/", ["TW"], ["https://tw/"]), mrec("wt", "https://wt/", [], ["http://wt/", "HTTP://WT/"])],
+    # served by a subclass that uses the documented standardize_identifier hook (index in HOOKED): "the expansion of that CURIE" is
+    # what expand() returns, hook included
+    [mrec("hk", "http://hk/", ["HK"]), mrec("doi", "https://doi.org/")],
 ]
+HOOKED = {8}
 UNKNOWN = ["zz", "Go", "urn", "static", "docs", "favicon.ico"]
 SEGMENTS = ["1", "ab", "10.1", "x_y", "a:b", "a:b:c", ":5", "1::2", "5:", "lsid:7", "GO_1"]   # the last three: leading / doubled / trailing delimiter
 DELIMS = [":", "/"]
@@ -90,6 +94,8 @@ def units(tier, seed):
         for d in DELIMS:
             for ch in chunks(sw, 2):
                 us.append({"conv": ci, "delim": d, "ids": ch})
+    for d in DELIMS:
+        us.append({"conv": 8, "delim": d, "ids": ["X1", "bad", "y", "Xab/1", "1", "X", "XX2", "1/X2", "b" + d + "1"]})
     # identifiers spelled like the sub-paths a framework serves below its own routes
     for ci in (0, 5):
         for d in DELIMS:
@@ -137,7 +143,12 @@ def apps(ci, d):
         from curies.resolver_service import get_fastapi_app, get_flask_app
         TestClient = AsgiClient
 
-        conv = Converter([to_record(r) for r in CONVERTERS[ci]], delimiter=d)
+        if ci in HOOKED:
+            from ..impl import HookedConverter
+
+            conv = HookedConverter([to_record(r) for r in CONVERTERS[ci]], delimiter=d)
+        else:
+            conv = Converter([to_record(r) for r in CONVERTERS[ci]], delimiter=d)
         # the same resolver mounted by hand from the blueprint / router entry points
         import fastapi
         import flask
@@ -157,9 +168,14 @@ def apps(ci, d):
 def check(ci, d, prefix, identifier, ctx=None):
     fails = []
     conv, flask_client, fast_client, flask_mounted, fast_mounted, flask_prefixed, fast_prefixed = apps(ci, d)
-    model = Model(CONVERTERS[ci], d)
+    if ci in HOOKED:
+        from ..impl import ident_hook
+
+        model = Model(CONVERTERS[ci], d, hook=ident_hook)
+    else:
+        model = Model(CONVERTERS[ci], d)
     path = "/" + prefix + d + identifier
-    want_loc = model.expand_pair(prefix, identifier) if d != "/" else model.expand(prefix + d + identifier)
+    want_loc = model.expand_pair(prefix, identifier) if (d != "/" and ci not in HOOKED) else model.expand(prefix + d + identifier)
     # (with '/' as delimiter the request path itself is split at the first '/', like any CURIE)
     want = (302, want_loc) if want_loc is not None else (422, None)
     where = f"converter {ci} delimiter {d!r} GET {path}"
